@@ -1,9 +1,52 @@
 import Driver.Util
+import Mtv.Links.Resolve
 namespace Driver.C20
-open Mtv Driver
+open Mtv Mtv.Links Driver
 
-/-- operations of property C20; not built yet -/
+def showOutcome : Outcome Deeplink → String
+  | .ok (.resolve d) => s!"ok:resolve:{toHexD d}"
+  | .ok (.join t) => s!"ok:join:{toHexD t}"
+  | .err k => s!"err:{k}"
+  | .panic s => s!"panic:{s}"
+
+def showPErr : PErr → String
+  | .ctl => "ctl" | .noscheme => "noscheme" | .colon => "colon" | .port => "port"
+  | .bracket => "bracket" | .escape => "escape" | .hostchar => "hostchar" | .userinfo => "userinfo"
+
+/-- operations of property C20 (see harness/cmd/vh/c20.go) -/
 def handle : List String → String
+  | ["c20.resolve", link] =>
+    match fromHex? link with
+    | some l => showOutcome (resolveString l)
+    | none => "bad-op"
+  | ["c20.rp", _link, "perr"] => "p=perr r=err:parse"
+  | ["c20.rp", _link, scheme, host, path] =>
+    match fromHex? scheme, fromHex? host, fromHex? path with
+    | some s, some h, some p =>
+      s!"p={toHexD s},{toHexD h},{toHexD p} r={showOutcome (resolveParsed s h p)}"
+    | _, _, _ => "bad-op"
+  | ["c20.parse", link] =>
+    match fromHex? link with
+    | some l =>
+      match parse l with
+      | .error e => s!"err:{showPErr e}"
+      | .ok u => s!"ok s={toHexD u.scheme} h={toHexD u.host} p={toHexD u.path} o={toHexD u.opaq} q={toHexD u.rawQuery} f={toHexD u.fragment}"
+    | none => "bad-op"
+  | ["c20.hostname", host] =>
+    match fromHex? host with
+    | some h => s!"hostname={toHexD (hostname h)}"
+    | none => "bad-op"
+  | ["c20.tolower", s] =>
+    match fromHex? s with
+    | some b => s!"lower={toHexD (toLower b)}"
+    | none => "bad-op"
+  | ["c20.hosts"] => s!"hosts={showList (reservedHosts.map toHexD)}"
+  | ["c20.lowertab"] =>
+    -- every rune of every run (and the ASCII letters) through `lowerRune`
+    let cands := (List.range 128) ++ Mtv.Gen.Links.lowerRuns.flatMap fun (lo, hi, step, _) =>
+      (List.range ((hi - lo) / step + 1)).map fun k => lo + k * step
+    let ps := cands.filterMap fun r => if lowerRune r ≠ r then some s!"{r}:{lowerRune r}" else none
+    s!"pairs={showList ps}"
   | _ => "bad-op"
 
 end Driver.C20
